@@ -319,11 +319,17 @@ class AsyncServer(base_server.BaseServer):
                                     self.sockets[sid].closed:
                                 del self.sockets[sid]
         elif method == 'POST':
-            if sid is None or sid not in self.sockets:
+            socket = None
+            if sid is not None:
+                try:
+                    socket = self._get_socket(sid)
+                except KeyError:
+                    # the session is unknown or has already been closed
+                    pass
+            if socket is None:
                 self._log_error_once(f'Invalid session {sid}', 'bad-sid')
                 r = self._bad_request(f'Invalid session {sid}')
             else:
-                socket = self._get_socket(sid)
                 try:
                     await socket.handle_post_request(environ)
                     r = self._ok(jsonp_index=jsonp_index)
